@@ -127,6 +127,13 @@ class Layouts:
                         variants.append((vname, [str(x) for x in range(len(split_top(rest[1:k])))]))
                     else:
                         variants.append((vname, []))
+                # variants appended by attribute macros
+                pre = src[max(0, m.start() - 300):m.start()]
+                pre = pre[max(pre.rfind('}'), pre.rfind(';')) + 1:]
+                if 'cw_ownable_execute' in pre:
+                    variants.append(('UpdateOwnership', ['0']))
+                if 'cw_ownable_query' in pre:
+                    variants.append(('Ownership', []))
                 self._add_enum((crate, mod, name), variants)
 
     @staticmethod
